@@ -15,8 +15,8 @@ PROPS = {
     "C16": {
         "engine": "machsim",
         "level": "exploration",
-        "quick_runs": 40000,
-        "thorough_runs": 600000,
+        "quick_runs": 30000,
+        "thorough_runs": 450000,
         "quick_wall": 300,
         "thorough_wall": 2400,
         "params": {"avoid_known": 0.8},
@@ -52,8 +52,8 @@ PROPS = {
     "C17": {
         "engine": "machsim",
         "level": "exploration",
-        "quick_runs": 40000,
-        "thorough_runs": 600000,
+        "quick_runs": 30000,
+        "thorough_runs": 450000,
         "quick_wall": 300,
         "thorough_wall": 2400,
         "params": {"avoid_known": 0.8},
